@@ -6,7 +6,7 @@
     connection.c  MHD_queue_response            (queue-time checks, in source order)
                   MHD_connection_handle_read / _write / _idle  (only the states the
                   upgrade path runs through; INIT..REQ_HEADERS_RECEIVING are one state
-                  `recv`, START_REPLY..body sending are one state `sending`)
+                  `recv`, HEADERS_SENDING..body sending are one state `sending`)
     response.c    MHD_response_execute_upgrade_, MHD_upgrade_action (CLOSE)
     daemon.c      internal_suspend_connection_, MHD_upgraded_connection_mark_app_closed_,
                   resume_suspended_connections (both branches), MHD_cleanup_connections,
@@ -55,13 +55,16 @@ def skipToComma : Bytes → Bytes
   | b :: r => if b == 44 then b :: r else skipToComma r
 
 /-- the inner `while (1)` loop: `some r` = `return r`, `none` = `break`; second
-    component = `str` afterwards (it has already moved past the character that did
-    not match — also when that character is the comma). -/
+    component = `str` afterwards: it has already moved past the character that did
+    not match; in the unrepaired code also when that character is the comma (the next
+    element is then skipped: "up, upgrade" is reported as not containing `upgrade`). -/
 def matchTok : Bytes → Bytes → Option Bool × Bytes
   | [], _ => (some false, [])
   | _ :: _, [] => (some false, [])
   | sc :: str, tc :: tok =>
-    if ! eqCaseless sc tc then (none, str)
+    if ! eqCaseless sc tc then
+      -- repaired code: `if (',' == sc) str--;` (probe regenerated into `tokCommaEndsElement`)
+      (none, if Mhd.Gen.Upg.tokCommaEndsElement && sc == 44 then sc :: str else str)
     else if tok.isEmpty then
       let s := skipWs str
       match s with
@@ -131,7 +134,9 @@ structure Cfg where
 def crlf : Bytes := [13, 10]
 def colonSp : Bytes := [58, 32]
 
-def decDigits (n : Nat) : Bytes := (toString n).toUTF8.toList
+/-- the three decimal digits of a status code (`MHD_queue_response` admits 100..999 only) -/
+def decDigits (n : Nat) : Bytes :=
+  [UInt8.ofNat (48 + n / 100 % 10), UInt8.ofNat (48 + n / 10 % 10), UInt8.ofNat (48 + n % 10)]
 
 def hdrLine (n v : Bytes) : Bytes := n ++ colonSp ++ v ++ crlf
 
@@ -180,7 +185,7 @@ def Ev.isUpgrade : Ev → Bool
 inductive Loc | none | new | active | suspended | cleanup | freed
   deriving DecidableEq, Repr
 
-inductive St | recv | headersProcessed | fullReq | sending | upgrade | closed
+inductive St | recv | headersProcessed | fullReq | startReply | sending | upgrade | closed
   deriving DecidableEq, Repr
 
 /-- `struct MHD_UpgradeResponseHandle` -/
@@ -248,7 +253,7 @@ def queueResponse (cfg : Cfg) (shutdown : Bool) (x : Conn) (rid : Nat) : Conn ×
   | none =>
     ({ x with rp := some rid,
               discard := if x.st = .headersProcessed then true else x.discard,
-              st := .sending }, true)
+              st := .startReply }, true)
 
 /-- the scripted handler queues its responses in turn until one is accepted -/
 def tryQueue (cfg : Cfg) (shutdown : Bool) (x : Conn) : List Nat → Conn
@@ -333,14 +338,18 @@ def afterSend (cfg : Cfg) (x : Conn) : Conn × Bool :=
       else (finishOrdinary x, false)
   else (x, false)
 
+/-- the bytes `build_header_response` (+ body) produces for a queued response -/
+def replyBytes (cfg : Cfg) (rid : Nat) : Bytes :=
+  if (cfg.resp rid).upgrade then head101 cfg (cfg.resp rid) else cfg.render rid
+
 /-- START_REPLY: build the reply into the write buffer (at its append offset; the buffer is
     empty at this point: the previous reply was sent completely before the request was read) -/
 def startReply (cfg : Cfg) (x : Conn) : Conn :=
   match x.rp with
   | none => x
   | some rid =>
-    let bytes := if (cfg.resp rid).upgrade then head101 cfg (cfg.resp rid) else cfg.render rid
-    { x with wbuf := x.wbuf ++ bytes, outq := x.outq ++ [bytes] }
+    let bytes := replyBytes cfg rid
+    { x with wbuf := x.wbuf ++ bytes, outq := x.outq ++ [bytes], st := .sending }
 
 /-- entry into the access handler: the call is logged, `rq.client_aware = true` -/
 def handlerEntered (x : Conn) (final : Bool) : Conn :=
